@@ -9,6 +9,7 @@ import (
 	"os"
 
 	"verifharness/cmd/c15/ops"
+	"verifharness/cmd/c16/gb"
 	"verifharness/lib"
 )
 
@@ -41,6 +42,11 @@ func genSpec(r *lib.Rng, kind ops.NodeKind, arity, listCol int) ops.Spec {
 	case ops.NOst, ops.NPrinter:
 		s.Keys = ops.GenKeys(r, arity)
 		s.NoRetr = r.Chance(1, 3)
+		if r.Chance(1, 2) {
+			// ORDER BY ... LIMIT n: small n, so that rows beyond the limit exist and retractions reach below it
+			s.HasLimit = true
+			s.Limit = int64(r.Intn(5))
+		}
 	}
 	return s
 }
@@ -53,14 +59,19 @@ func main() {
 	}
 	rng := lib.NewRng(f.Seed)
 	cf := lib.NewCaseFile("C15", f.Seed, f.Tier)
-	cf.Imports = []string{"Operators"}
-	cf.CaseType = "c15_case"
-	cf.Checks = []lib.Check{{Name: "tie", Kind: "tie", Fn: "c15_tie"}, {Name: "spec", Kind: "spec", Fn: "c15_spec"}}
-	cf.Side.Rule = "each of Filter, Map, Unnest, LookupJoin (joined side = Filter(table, t.col = s.col)), Distinct, Limit, OrderSensitiveTransform (no limit) and " +
-		"batch.OutputPrinter (no limit) built with its exported constructor over lib.ScriptSource replaying a generated changelog (0..12 events, arity 1..3, " +
+	cf.Imports = []string{"GroupBy", "Joins", "C15Cases"}
+	cf.CaseType = "c15x_case"
+	cf.Checks = []lib.Check{{Name: "tie", Kind: "tie", Fn: "c15x_tie"}, {Name: "spec", Kind: "spec", Fn: "c15x_spec"}}
+	cf.Side.Rule = "each of Filter, Map, Unnest, LookupJoin (joined side = Filter(table, t.col = s.col)), Distinct, Limit, OrderSensitiveTransform and " +
+		"batch.OutputPrinter (each half of the time with a LIMIT 0..4) built with its exported constructor over lib.ScriptSource replaying a generated changelog (0..12 events, arity 1..3, " +
 		"duplicates, NULLs, -0/NaN floats, list column for Unnest, watermarks, event times; 1 in 10 scripts retracts an absent row and is used for the tie only); " +
-		"non-trivial = valid script with at least one retraction and one duplicate insertion (Limit/insert-only nodes: at least 3 records); distinct by full case text"
+		"non-trivial = valid script with at least one retraction and one duplicate insertion (Limit/insert-only nodes: at least 3 records); distinct by full case text. " +
+		"GROUP BY: SimpleGroupBy / CustomTriggerGroupBy built through the planner path by harness/cmd/c16/gb (all trigger sets, COUNT/SUM, watermarks) and judged by validity of the output + c16_spec; " +
+		"JOIN: StreamJoin / OuterJoin over two gated plain scripts (valid changelogs, event times, watermarks) consumed in a prescribed order (random merges and " +
+		"one-input-ends-before-the-other-starts), judged by validity of the output + c19_spec_final"
 	n := f.Cases(900, 9000)
+	nGroup := f.Cases(250, 2500)
+	nJoin := f.Cases(300, 3000)
 	kinds := []ops.NodeKind{ops.NFilter, ops.NMap, ops.NUnnest, ops.NLookup, ops.NLookup, ops.NDistinct, ops.NDistinct, ops.NLimit, ops.NOst, ops.NOst, ops.NPrinter}
 	for i := 0; i < n; i++ {
 		r := rng.Fork()
@@ -81,10 +92,13 @@ func main() {
 		}
 		script := ops.GenChangelog(r, arity, listCol, 12, insertOnly, valid)
 		obs := spec.Run(script)
+		if spec.HasLimit {
+			cf.Count("node_" + ops.KindNames[kind] + "_with_limit")
+		}
 		recs, retr, wms, dups := ops.ScriptFacts(script)
 		nontrivial := valid && ((retr > 0 && dups > 0) || (insertOnly && recs >= 3))
 		js := map[string]interface{}{"arity": arity, "node": spec.JSON(), "input": lib.EventsJSON(script), "observed": obs.JSON()}
-		idx := cf.Add(fmt.Sprintf("(%s, %s, %s, %s)", ops.Nat(arity), spec.Coq(), lib.CoqEvents(script), obs.Coq()), js, nontrivial)
+		idx := cf.Add(fmt.Sprintf("XNode (%s, %s, %s, %s)", ops.Nat(arity), spec.Coq(), lib.CoqEvents(script), obs.Coq()), js, nontrivial)
 		cf.Count("node_" + ops.KindNames[kind])
 		if !valid {
 			cf.Count("invalid_script_tie_only")
@@ -104,6 +118,18 @@ func main() {
 		if valid && obs.Err != nil && !(kind == ops.NOst && spec.HasLimit && spec.Limit < 0) {
 			cf.Violation(idx, fmt.Sprintf("%s failed on a valid changelog with an error-free source: %v", ops.KindNames[kind], obs.Err), "")
 		}
+	}
+	// ---- GROUP BY (nodes and generator of harness/cmd/c16/gb; the case term is a gb_case) ----
+	gb.Init()
+	for i := 0; i < nGroup; i++ {
+		r := rng.Fork()
+		idx := gb.RandomCase(cf, r, i, false)
+		cf.Items[idx] = "XGroup " + cf.Items[idx]
+	}
+	// ---- StreamJoin / OuterJoin ----
+	ops.InitJoins()
+	for i := 0; i < nJoin; i++ {
+		ops.RandomJoinCase(cf, rng.Fork())
 	}
 	if err := cf.Write(f.Out); err != nil {
 		fmt.Fprintln(os.Stderr, err)
